@@ -77,7 +77,8 @@ contract(RT + "_flush", props=["C19"], types={"begin": "DT", "end": "DT"},
          loops={0: dict(invariant=FLUSH_INV, modifies=[])})
 
 # main(): successive windows tile the time line and every flush gets the last instant of its window
-contract(RT + "main", props=["C19"], notes="never-returns",
+contract(RT + "main", props=["C19"], notes="never-returns; no-refinement-check: the precondition rt_wf is the object's own representation invariant "
+         "(established by __init__ and kept by push_trade/_flush), not a strengthening of Producer.main visible to the dispatcher",
          requires=[("wf", "rt_wf(self)"),
                    ("queue", "forall(lambda i=Int: implies(0 <= i and i < len(self._queue), seq_at(self._queue, i) in self.pending))")],
          may_suspend=True, cancellable=True, raises={"CancelledError": []},
